@@ -503,7 +503,7 @@ class System:
                 extra_obs.append(("e", f"gas_{g}", f'GAS("{g}")'))
             extra_obs.append(("e", "gas_total", 'SYS("gas")'))
         elif kind == "kinetics":
-            law = "PARM(1) * M" if p["order"] == 1 else "PARM(1) * 100 * TOT(\"water\")"
+            law = "PARM(1) * M" if p["order"] == 1 else "PARM(1) * TOT(\"water\")"
             rate = (f"RATES\n Dissolve\n -start\n 10 rate = {law}\n 20 moles = rate * TIME\n"
                     " 30 SAVE moles\n -end\n")
             blocks.insert(0, rate)
